@@ -20,6 +20,9 @@ pub enum TAir {
     Sub { rows: usize },
     /// first row: local[0] == public[0]; width 2.
     Pv { rows: usize },
+    /// a + b = c declared row-local (`main_next_row_columns()` empty): the honest proof carries no
+    /// `trace_next` opening for this instance (batch only; used by the C15 shape list).
+    AddRl { rows: usize },
 }
 
 fn lcg(state: &mut u64) -> u64 {
@@ -37,6 +40,7 @@ impl TAir {
             TAir::Add { rows } => format!("add-r{rows}"),
             TAir::Sub { rows } => format!("sub-r{rows}"),
             TAir::Pv { rows } => format!("pv-r{rows}"),
+            TAir::AddRl { rows } => format!("addrl-r{rows}"),
         }
     }
 
@@ -46,7 +50,8 @@ impl TAir {
             | TAir::Fib { rows }
             | TAir::Add { rows }
             | TAir::Sub { rows }
-            | TAir::Pv { rows } => *rows,
+            | TAir::Pv { rows }
+            | TAir::AddRl { rows } => *rows,
         }
     }
 
@@ -95,7 +100,7 @@ impl TAir {
                 let x = v[2 * (rows - 1) + 1];
                 (RowMajorMatrix::new(v, 2), None, vec![V::ZERO, V::ONE, x])
             }
-            TAir::Add { rows } => {
+            TAir::Add { rows } | TAir::AddRl { rows } => {
                 let mut v = Vec::with_capacity(rows * 3);
                 for row in 0..rows {
                     let a = V::from_usize(row);
@@ -138,7 +143,7 @@ impl<V: Field + PrimeField64> BaseAir<V> for TAir {
                 }
             }
             TAir::Fib { .. } => 2,
-            TAir::Add { .. } => 3,
+            TAir::Add { .. } | TAir::AddRl { .. } => 3,
             TAir::Sub { .. } => 2,
             TAir::Pv { .. } => 2,
         }
@@ -158,6 +163,13 @@ impl<V: Field + PrimeField64> BaseAir<V> for TAir {
             TAir::Fib { .. } => 3,
             TAir::Pv { .. } => 1,
             _ => 0,
+        }
+    }
+    fn main_next_row_columns(&self) -> Vec<usize> {
+        match *self {
+            TAir::AddRl { .. } => vec![],
+            // the p3-air default: every column
+            _ => (0..<Self as BaseAir<V>>::width(self)).collect(),
         }
     }
 }
@@ -217,7 +229,7 @@ where
                 }
                 builder.when_last_row().assert_eq(l[1], x);
             }
-            TAir::Add { .. } => {
+            TAir::Add { .. } | TAir::AddRl { .. } => {
                 let main = builder.main();
                 let l = main.current_slice().to_vec();
                 builder.assert_zero(l[0] + l[1] - l[2]);
